@@ -152,24 +152,23 @@ Qed.
 (* unfolding of linux_node_requests when it answers *)
 Lemma requests_inv v l : linux_node_requests v = Requests l ->
   l = [] \/ exists indexes dist, list_nodes v = inl (Some indexes) /\
-        l = snd (pass2 v dist (fst (pass1 v (create_nodes v indexes))) (snd (pass1 v (create_nodes v indexes)))).
+        l = snd (pass2 v dist (fst (pass1 v (final_nodes v indexes))) (snd (pass1 v (final_nodes v indexes)))).
 Proof.
   unfold linux_node_requests. destruct (list_nodes v) as [[indexes|]|why]; [|intros E; injection E as <-; now left|discriminate].
-  destruct (nv_nvidia v); [discriminate|].
   destruct (if nv_dist v && negb (Nat.leb (List.length indexes) 1) then parse_rows v (List.length indexes) indexes else inl None) as [dist|why]; [|discriminate].
   destruct (nv_knl v); [discriminate|].
-  destruct (pass1 v (create_nodes v indexes)) as [nodes1 reqs1] eqn:P1.
+  destruct (pass1 v (final_nodes v indexes)) as [nodes1 reqs1] eqn:P1.
   destruct (pass2 v dist nodes1 reqs1) as [nodes2 reqs2] eqn:P2.
   intros E; injection E as <-. right. exists indexes, dist. split; [reflexivity|]. rewrite P1. cbn [fst snd]. now rewrite P2.
 Qed.
 
 Lemma requests_are_trees v l : linux_node_requests v = Requests l ->
   exists indexes trees, (l = [] \/ list_nodes v = inl (Some indexes)) /\
-    l = trees_of v trees /\ trees_in (created_union (create_nodes v indexes)) trees.
+    l = trees_of v trees /\ trees_in (created_union (final_nodes v indexes)) trees.
 Proof.
   intros H. apply requests_inv in H as [->|[indexes [dist [L ->]]]].
   - exists [], []. split; [now left|]. split; [reflexivity|intros p []].
-  - set (nodes := create_nodes v indexes). set (U := created_union nodes).
+  - set (nodes := final_nodes v indexes). set (U := created_union nodes).
     pose proof (pass1_ok v U nodes (within_created_union nodes)) as H1.
     destruct (pass1 v nodes) as [nodes1 reqs1]. cbn [fst snd].
     pose proof (pass2_ok v U dist nodes1 reqs1 H1) as [_ [trees [E T]]].
@@ -246,7 +245,7 @@ Qed.
 (* every cpuset of a request is made of cpumaps of created nodes *)
 Lemma requests_within_created v l : linux_node_requests v = Requests l ->
   exists indexes, (l = [] \/ list_nodes v = inl (Some indexes)) /\
-    forall r, In r l -> sub (r_cs r) (created_union (create_nodes v indexes)).
+    forall r, In r l -> sub (r_cs r) (created_union (final_nodes v indexes)).
 Proof.
   intros H. destruct (requests_are_trees v l H) as [indexes [trees [Hl [-> T]]]].
   exists indexes. split; [exact Hl|]. intros r Hr. unfold trees_of in Hr. apply in_flat_map in Hr as [p [Hp Hr]].
@@ -300,12 +299,34 @@ Proof.
   apply G; [constructor|intros o []].
 Qed.
 
-(* ---------- distinct os indexes: false for hostile directory listings ---------- *)
-(* two directory entries denoting the same index ("node0" and "node00") with CPU-less cpumaps: node 0 is requested twice *)
-Definition dup_view : nview :=
-  mkNV false false false false false false None false None
-       (Some [[110; 111; 100; 101; 48]; [110; 111; 100; 101; 48; 48]])
-       [mkNF 0 (Some [48; 10]) None None None None].
-Lemma dup_view_requests : exists a b, linux_node_requests dup_view = Requests [a; b] /\
-  r_type a = HWLOC_OBJ_NUMANODE /\ r_type b = HWLOC_OBJ_NUMANODE /\ r_os a = r_os b.
-Proof. eexists _, _. split; [vm_compute; reflexivity|]. repeat split. Qed.
+(* ---------- the listed indexes are pairwise distinct ---------- *)
+Lemma pos_bits_ge p : forall i x, In x (pos_bits p i) -> i <= x.
+Proof.
+  induction p as [q IH|q IH|]; intros i x H; cbn [pos_bits] in H.
+  - destruct H as [<-|H]; [lia|]. apply IH in H. lia.
+  - apply IH in H. lia.
+  - destruct H as [<-|[]]. lia.
+Qed.
+Lemma pos_bits_nodup p : forall i, NoDup (pos_bits p i).
+Proof.
+  induction p as [q IH|q IH|]; intros i; cbn [pos_bits].
+  - constructor; [|apply IH]. intros H. apply pos_bits_ge in H. lia.
+  - apply IH.
+  - constructor; [intros []|constructor].
+Qed.
+Lemma elements_nodup s : NoDup (elements s).
+Proof. unfold elements. destruct (fin s); [constructor|apply pos_bits_nodup]. Qed.
+
+Lemma list_nodes_nodup v indexes : list_nodes v = inl (Some indexes) -> NoDup indexes.
+Proof.
+  unfold list_nodes.
+  set (from_dir := match nv_dir v with None => _ | Some names => _ end).
+  assert (Hd : from_dir = inl (Some indexes) -> NoDup indexes).
+  { subst from_dir. destruct (nv_dir v) as [names|]; [|discriminate].
+    destruct (existsb _ _); [discriminate|].
+    destruct (flat_map _ names); [discriminate|]. intros E; injection E as <-. apply elements_nodup. }
+  destruct (read_list (nv_online v)) as [s|]; [|exact Hd].
+  destruct (inf s); [exact Hd|]. destruct (N.size (fin s) <=? LIMIT); [|discriminate].
+  destruct (elements s) as [|e els] eqn:E; [exact Hd|].
+  intros H; injection H as <-. rewrite <- E. apply elements_nodup.
+Qed.
